@@ -173,8 +173,8 @@ Lemma SimOkX_with_scope_pc {A} s b b' (f f' : M A) :
 Proof.
   intros Hl Hr Hf c c' HE a d H OK. unfold with_scope in *. rewrite <- Hl, <- Hr.
   unfold bind at 1 in H. unfold get at 1 in H. unfold bind at 1. unfold get at 1.
-  assert (HS : current_scope c = current_scope c' /\ current_scope_nx c = current_scope_nx c') by (unfold E, core in HE; inversion HE; auto).
-  destruct HS as [H1 H2]. rewrite <- H1, <- H2.
+  assert (HS : current_scope c = current_scope c' /\ current_scope_nx c = current_scope_nx c' /\ next_macro_scope_id c = next_macro_scope_id c') by (unfold E, core in HE; inversion HE; auto).
+  destruct HS as (H1 & H2 & H3). rewrite <- H1, <- H2, <- H3.
   unfold bind at 1 in H. cbn [modify] in H. unfold bind at 1. cbn [modify].
   assert (HE1 : E (enter_scope s c) (enter_scope s c')) by (apply core_enter; exact HE).
   unfold bind at 1 in H. unfold bind at 1.
@@ -184,12 +184,12 @@ Proof.
   unfold finally in *. destruct (f x) as [v y|ds y|fl] eqn:Fx; try discriminate.
   - match type of H with match ?m y with _ => _ end = _ => destruct (m y) as [w z|ds z|fl] eqn:C1; try discriminate end.
     inversion H; subst.
-    assert (TC : TM (scope_symbol t_plus (blk_rparen b) ;;; modify (leave_scope (current_scope c) (current_scope_nx c)))).
+    assert (TC : TM (scope_symbol t_plus (blk_rparen b) ;;; modify (leave_scope (current_scope c) (current_scope_nx c, next_macro_scope_id c)))).
     { apply (RM_bind Tr Tr_trans); [apply tr_scope_symbol|intro; apply tr_leave]. }
     pose proof (TC y) as T. rewrite C1 in T.
     destruct (Hf x x' HX P a y Fx (ok_back _ _ T OK)) as (y' & Fx' & HY). rewrite Fx'.
-    assert (SC : SimM (scope_symbol t_plus (blk_rparen b) ;;; modify (leave_scope (current_scope c) (current_scope_nx c)))
-                      (scope_symbol t_plus (blk_rparen b) ;;; modify (leave_scope (current_scope c) (current_scope_nx c)))).
+    assert (SC : SimM (scope_symbol t_plus (blk_rparen b) ;;; modify (leave_scope (current_scope c) (current_scope_nx c, next_macro_scope_id c)))
+                      (scope_symbol t_plus (blk_rparen b) ;;; modify (leave_scope (current_scope c) (current_scope_nx c, next_macro_scope_id c)))).
     { apply sim_bind; [apply sim_scope_symbol|intro]. apply sim_modify. intros; apply core_leave; assumption. }
     destruct (SimOk_of_SimM _ _ SC y y' HY w d C1) as (z' & C1' & HZ). rewrite C1'. eauto.
   - match type of H with match ?m y with _ => _ end = _ => destruct (m y); discriminate end.
